@@ -6,7 +6,7 @@ from datetime import datetime, timedelta, date
 BOUND = {
     "quick": "120 seeded calendars: zoned values in DTSTART/DTEND/DUE/RECURRENCE-ID/RDATE/EXDATE/FREEBUSY (single and multi-valued) at "
              "nesting depth <= 3 (incl. X- containers and VALARM triggers), every subset of {used, unused, unknown} VTIMEZONEs present, "
-             "2 repeated add_missing_timezones calls, zoneinfo provider",
+             "2 repeated add_missing_timezones calls, both providers",
     "thorough": "1500 seeded calendars, both providers, 3 repeated calls",
 }
 KNOWN = ["Europe/Berlin", "America/New_York", "Asia/Tokyo", "Europe/London"]
@@ -129,7 +129,7 @@ def run(b, tier, seed):
     n = 120 if tier == "quick" else 1500
     fails = {}
     cases = 0
-    for prov in (["zoneinfo"] if tier == "quick" else ["zoneinfo", "pytz"]):
+    for prov in ("zoneinfo", "pytz"):
         icalendar.timezone.tzp.use(prov)
         try:
             for _ in range(n):
